@@ -952,6 +952,16 @@ def m_slice_get(I, fr, a, ck):
             outs.append(ret(NONE, z3.Or(z3.UGT(H, z3.BitVecVal(n, 64)), z3.ULT(H, z3.BitVecVal(lo, 64)))))
             return outs
         raise EngineError('symbolic slice.get range')
+    if isinstance(idx, int):
+        return some(mk_sref(s.items[idx])) if 0 <= idx < n else NONE
+    if isinstance(idx, OrdId):
+        idx = idx.bv()
+    if isinstance(idx, z3.BitVecRef):
+        # a symbolic position: Some(&items[i]) under idx == i, None beyond the length
+        res = NONE
+        for i in range(n - 1, -1, -1):
+            res = merge(idx == z3.BitVecVal(i, idx.size()), some(mk_sref(s.items[i])), res)
+        return res
     raise EngineError('slice.get with %s' % type(idx).__name__)
 
 
@@ -1269,6 +1279,22 @@ def m_collect(I, fr, a, ck):
         else:
             res.append(Outcome('ret', g, Seq(acc), mem))
     return res
+
+
+def m_option_flatten(I, fr, a, ck):
+    """Option<Option<T>>::flatten"""
+    v = a[0]
+    res = NONE
+    if 1 in v.alts and not g_false(v.alts[1][0]):
+        inner = v.alts[1][1][0]
+        res = merge(v.alts[1][0], inner, NONE) if 0 in v.alts and not g_false(v.alts[0][0]) else inner
+    return res
+
+
+def m_mem_drop(I, fr, a, ck):
+    """std::mem::drop(x): what the MIR drop terminator does to a value (RefCell guards release their borrow)"""
+    I.drop_value(fr, a[0])
+    return UNIT
 
 
 def m_option_unwrap_or_default(I, fr, a, ck):
@@ -2378,6 +2404,8 @@ def register_ints(M):
     A('slice', None, 'join', m_slice_join)
     A(None, 'Itertools', 'join', m_itertools_join)
     A('Option', None, 'unwrap_or_default', m_option_unwrap_or_default)
+    A('mem', None, 'drop', m_mem_drop)
+    A('Option', None, 'flatten', m_option_flatten)
     A('Vec', None, 'split_off', m_vec_split_off)
     A('slice', None, 'concat', m_slice_join)
     for t in ('usize', 'u64', 'i64', 'isize', 'u32', 'i32', 'u8', 'u16'):
@@ -2615,7 +2643,12 @@ def m_vec_swap(I, fr, a, ck):
 
 
 def m_vec_iter_mut(I, fr, a, ck):
-    raise Unsupported('iter_mut (mutable iteration) is not modelled')
+    """slice::iter_mut over a concrete-length sequence: yields &mut to each element in turn"""
+    r = a[0]
+    if not isinstance(r, MRef):
+        raise Unsupported('iter_mut on a sequence that is not reached through &mut')
+    s = _seq(I, fr, r)
+    return IterV('vals', [Seq([MRef(r.cell, tuple(r.path) + (('index', i),)) for i in range(len(s.items))]), 0])
 
 
 def m_string_push_str(I, fr, a, ck):
